@@ -652,23 +652,26 @@ fn walk(src: &str, chars: &[char], idx: &LineIndex, toks: &[PlacedToken], unicod
                     break;
                 }
                 flags |= F_ERROR;
-                // the extent of such an error token is whatever it reports (>= 1 character, inside the text)
-                let ext: Option<usize> = if reported.line_end == reported.line_start {
-                    end_checked = false;
-                    reported.col_end.checked_sub(reported.col_start)
-                } else {
-                    match (idx.index_of(reported.line_start, reported.col_start, n), idx.index_of(reported.line_end, reported.col_end, n)) {
-                        (Some(a), Some(b)) => b.checked_sub(a),
-                        _ => None,
-                    }
-                };
-                match ext {
-                    Some(x) if x >= 1 && p + x <= n => e = p + x,
+                // the extent of such an error token is whatever it reports: from its true start to the character
+                // position its (line_end, col_end) denotes; "column one past the last character of a line" and
+                // "column 1 of the next line" denote the same position and are both accepted
+                end_checked = false;
+                match idx.index_of(reported.line_end, reported.col_end, n) {
+                    Some(b) if b > p && b <= n => e = b,
                     _ => {
                         note(
                             1,
                             "C17/lex/error-token-extent".into(),
-                            &|| header(&format!("error token [{}] {} does not denote a non-empty range inside the text (it starts at character {})", ti, show_tok(tok), p)),
+                            &|| {
+                                header(&format!(
+                                    "error token [{}] {} starts at character {} but its end {}:{} is not a position of the text after that character",
+                                    ti,
+                                    show_tok(tok),
+                                    p,
+                                    reported.line_end,
+                                    reported.col_end
+                                ))
+                            },
                             &mut best,
                         );
                         break;
